@@ -62,6 +62,13 @@ SPEC = Spec(
                   "thorough": "adds shallow=False requests, destination index, local source store, 3 files / 3 directories, abort at every upload index"},
           smoke=[{"args": T_SMOKE, "cube": {"nfiles": 2, "listing": [[0, 1], [0]], "dst": "local", "prop": "C04"}}],
           encodes=STACK_ENCODES, stubs=STACK_STUBS),
+        H("index-history", "vf.harness.c04_transfer", "h_index_history",
+          lambda tier: [dict(dst=d) for d in (("remote", "local") if tier == "quick" else DSTS)],
+          timeout={"quick": 300, "thorough": 900}, real=True,
+          bounds={"quick": "two pushes sharing one destination index: A=[f0,f1] pushed and indexed, optional closure-preserving collection of the remote "
+                           "(A.dir and a symbolic subset of its files), then B=[f1,f2] pushed with symbolic upload failures", "thorough": "all 3 destination kinds"},
+          smoke=[{"args": dict(gc=True, del0=False, del1=True, x1=False, x2=False, xb=False), "cube": {"dst": "remote"}}],
+          encodes=STACK_ENCODES + ", ObjectDBIndex.update/clear/intersection/dir_hashes", stubs=STACK_STUBS + ("diskcache Index -> dict",)),
     ],
     assumptions=["the initial destination is itself closed", "requests are closed (directories with their files) or ask for expansion",
                  "an upload either places the complete object or reports an error (dvc_objects contract; C15 looks below that)"],
